@@ -225,11 +225,15 @@ void do_catch (const char *p, unsigned short new_pc_offset) {
       if (get_error_state (ES_MAX_EVAL_COST))
         {
           pop_context (&econ);
+          /* pop_context() cleared the state: an enclosing catch must
+           * refuse this error as well */
+          set_error_state (ES_MAX_EVAL_COST);
           error ("*Can't catch eval cost too big error.");
         }
       if (get_error_state (ES_STACK_FULL))
         {
           pop_context (&econ);
+          set_error_state (ES_STACK_FULL);
           error ("*Can't catch too deep recursion error.");
         }
     }
